@@ -249,8 +249,11 @@ theorem syncRemoveSession_grow (env : DEnv) (s : DState) (k : SessKey) :
   exact cancelServed_grow env k _ { s with d := _ }
 
 /-- No `sync*` function removes a timer from the table or revives a cancelled one: timers leave the table
-    only when they fire (`Realm.timerDue`). -/
-theorem DStep.timers_grow {s : DState} {o : DOut} (st : DStep s o) (hnd : ∀ p, o ≠ { st := { s with timers := s.timers.filter p } }) :
+    only when they fire (`Realm.timerDue`, the `dropTimers` step).  The hypothesis speaks about the one step that can
+    drop timers: if the step is `dropTimers p`, then `p` keeps every timer (it holds vacuously for all other steps that
+    change anything, and for a no-op step with `p = fun _ => true`). -/
+theorem DStep.timers_grow {s : DState} {o : DOut} (st : DStep s o)
+    (hkeep : ∀ p, o = { st := { s with timers := s.timers.filter p } } → ∀ t ∈ s.timers, p t = true) :
     TimersGrow s.timers o.st.timers := by
   cases st with
   | register => exact TimersGrow.of_eq (syncRegister_timers ..)
@@ -260,7 +263,27 @@ theorem DStep.timers_grow {s : DState} {o : DOut} (st : DStep s o) (hnd : ∀ p,
   | yield => exact syncYield_grow ..
   | error => exact syncError_grow ..
   | removeSession => exact syncRemoveSession_grow ..
-  | dropTimers p => exact absurd rfl (hnd p)
+  | dropTimers p => exact TimersGrow.of_eq (List.filter_eq_self.2 (hkeep p rfl))
+
+/-- … stated without hypothesis: across ANY step a timer of the table either stays (same id, call, deadline; cancelled
+    stays cancelled), or the step is the expiry bookkeeping `dropTimers p` and `p` rejects it. -/
+theorem DStep.timer_persists_or_dropped {s : DState} {o : DOut} (st : DStep s o) {t : Timer} (ht : t ∈ s.timers) :
+    (∃ t' ∈ o.st.timers, t'.shape = t.shape ∧ (t.canceled = true → t'.canceled = true)) ∨
+    (∃ p, o = { st := { s with timers := s.timers.filter p } } ∧ p t = false) := by
+  have grow : TimersGrow s.timers o.st.timers →
+      ∃ t' ∈ o.st.timers, t'.shape = t.shape ∧ (t.canceled = true → t'.canceled = true) := fun g => g.mem ht
+  cases st with
+  | register => exact Or.inl (grow (TimersGrow.of_eq (syncRegister_timers ..)))
+  | unregister => exact Or.inl (grow (TimersGrow.of_eq (syncUnregister_timers ..)))
+  | call => exact Or.inl (grow (syncCall_grow ..))
+  | cancel => exact Or.inl (grow (syncCancel_grow ..))
+  | yield => exact Or.inl (grow (syncYield_grow ..))
+  | error => exact Or.inl (grow (syncError_grow ..))
+  | removeSession => exact Or.inl (grow (syncRemoveSession_grow ..))
+  | dropTimers p =>
+    cases hp : p t with
+    | true => exact Or.inl ⟨t, List.mem_filter.2 ⟨ht, hp⟩, rfl, id⟩
+    | false => exact Or.inr ⟨p, rfl, hp⟩
 
 /-! ### completion cancels the recorded timer -/
 
@@ -727,7 +750,6 @@ theorem syncRemoveSession_cancels {env : DEnv} {s : DState} (h : DealerInv s) (k
 /-- When a step completes a call (removes it from `calls`), the timer recorded in its invocation — the
     timer armed by the latest chunk — is cancelled, if it is still in the table. -/
 theorem DStep.completion_cancels_timer {s : DState} {o : DOut} (h : DealerInv s) (st : DStep s o)
-    (hnd : ∀ p, o ≠ { st := { s with timers := s.timers.filter p } })
     {v : Invk} (hv : v ∈ s.d.invs) {tid : Nat} (hvt : v.timer = some tid) (hgone : v.callId ∉ o.st.d.calls)
     {t : Timer} (ht : t ∈ s.timers) (hid : t.id = tid) :
     ∀ t' ∈ o.st.timers, t'.id = tid → t'.canceled = true := by
@@ -742,7 +764,7 @@ theorem DStep.completion_cancels_timer {s : DState} {o : DOut} (h : DealerInv s)
     | yield => exact syncYield_cancels h _ _ _ _ _ _ _ hv hvt hgone
     | error => exact syncError_cancels h _ _ _ _ _ _ hv hvt hgone
     | removeSession => exact syncRemoveSession_cancels h _ hv hvt hgone
-    | dropTimers p => exact absurd rfl (hnd p)
+    | dropTimers p => exact absurd hpend hgone
   exact key.cancelled hn ht hid
 
 
